@@ -33,7 +33,7 @@ man = dict(
     version=1,
     setup_cmd="./setup.sh",
     hooks=dict(guard="VERDE_VERIF", enable="no source hooks are needed: every seam (estimator subclasses, dask scheduler callable, builtins.open wrapper) is reachable from outside; ./check exports VERDE_VERIF=1 for form",
-               baseline_off_cmd="cd /repo && /venv/bin/python -m pytest -ra -q -p no:cacheprovider --timeout=900 --continue-on-collection-errors verde",
+               baseline_off_cmd="cd /repo && /venv/bin/python -m pytest -ra -q -p no:cacheprovider --timeout=900 --continue-on-collection-errors",
                source_commits=[], add_only=True),
     engines=[dict(name="mc", path="/verif/mc", serves_properties=sorted(claimed),
                   kind_free_text="hand-written bounded-exhaustive explorers in Python: E1 case-space enumeration with exact reference models, E2 breadth-first search over estimator call histories, E3 enumeration of dask task orders and method-boundary interleavings; 16 worker processes, static sharding by case index")],
